@@ -250,7 +250,7 @@ def run(rep, progs, tier):
                 if div_by_nonzero_const(s.body, s.bb):
                     rep.ok("C12.inventory", inst, detail={"where": s.where, "discharged": "divisor is a non-zero constant"})
                     continue
-            if s.kind == "call:core::result::Result::unwrap" and s.fn in TAG_UNWRAP_FNS and is_tag_try_from_unwrap(s):
+            if s.kind == "call:core::result::Result::unwrap" and is_tag_try_from_unwrap(s):
                 n_tag_unwrap += 1
                 rep.check(charset_ok, "C12.inventory", inst, s.where,
                           "Tag::try_from(field name).unwrap() is only safe while the protocol parser's "
